@@ -233,9 +233,26 @@ def run_impl(case):
     if case.get("subclassing"):
         from typedpy import FinalStructure, ImmutableField, String
         outcomes = {}
-        for label, mk in [("ImmutableStructure", lambda: type("SubI", (cls,), {})),
-                          ("FinalStructure", lambda: type("SubF", (type("Fin", (FinalStructure,), {"a": String}),), {})),
-                          ("ImmutableField", lambda: type("SubIF", (type("IF", (ImmutableField, String), {}),), {}))]:
+        from typedpy import Structure as _St, Integer as _Int
+        Mixin = type("Mixin", (), {"helper": lambda self: 1})
+        Mixin2 = type("Mixin2", (Mixin,), {})
+        Plain = type("PlainSt", (_St,), {"p": _Int, "_required": []})
+        Fin = type("Fin", (FinalStructure,), {"a": String})
+        IF = type("IF", (ImmutableField, String), {})
+        shapes = [("ImmutableStructure", lambda: type("SubI", (cls,), {})),
+                  ("FinalStructure", lambda: type("SubF", (Fin,), {})),
+                  ("ImmutableField", lambda: type("SubIF", (IF,), {})),
+                  # several bases: a plain Python mix-in or another typedpy class before / after the sealed base, at two depths
+                  ("ImmutableStructure:mixin-first", lambda: type("SubI2", (Mixin, cls), {})),
+                  ("ImmutableStructure:mixin-last", lambda: type("SubI3", (cls, Mixin), {})),
+                  ("ImmutableStructure:mixin2-first", lambda: type("SubI4", (Mixin2, cls), {"_immutable": False})),
+                  ("ImmutableStructure:structure-first", lambda: type("SubI5", (Plain, cls), {})),
+                  ("ImmutableStructure:mixin-structure-first", lambda: type("SubI6", (Mixin, Plain, cls), {})),
+                  ("FinalStructure:mixin-first", lambda: type("SubF2", (Mixin, Fin), {})),
+                  ("FinalStructure:structure-first", lambda: type("SubF3", (Plain, Fin), {})),
+                  ("ImmutableField:mixin-first", lambda: type("SubIF2", (Mixin, IF), {})),
+                  ("ImmutableField:field-first", lambda: type("SubIF3", (String, IF), {}))]
+        for label, mk in shapes:
             try:
                 mk()
                 outcomes[label] = "defined"
